@@ -20,6 +20,9 @@ type Exec struct {
 	InToks  []Tok
 	OutToks []Tok
 	Dur     time.Duration // wall time of the call, when measured
+	// set when the policy was extended after use (see ReplayFile)
+	ExtendAt int
+	Prior    [][]byte
 }
 
 func NewExec(r Recipe, model *AP, real *bm.Policy, in, out []byte, rec *CallRec) *Exec {
